@@ -444,9 +444,10 @@ def run_obligation(ob, work, extra_defs=(), want_trace_for=None, only_entries=No
             base = cbmc_cmd(ob, gb, entry="@ENTRY@")
             jqf = os.path.join(work, "compact.jq")
             if not os.path.exists(jqf):
-                with open(jqf + ".tmp%d" % os.getpid(), "w") as f:
+                tmpn = "%s.tmp%d-%d" % (jqf, os.getpid(), threading.get_ident())
+                with open(tmpn, "w") as f:
                     f.write(JQ_COMPACT)
-                os.replace(jqf + ".tmp%d" % os.getpid(), jqf)
+                os.replace(tmpn, jqf)
             with open(script, "w") as f:
                 # cbmc's JSON (10-25 MB per scenario: every built-in check with its source location) is reduced by jq
                 # to the failed / property / witness entries plus per-class counts of the successful built-in checks,
@@ -778,6 +779,8 @@ def run_check(pid, tier, obligations, meta):
         distinct = len(set((ob.harness, tuple(sorted(ob.defs)), json.dumps(ob.bounds, sort_keys=True)) for ob, r in nontrivial))
         cov = {
             "evaluations": len(final),
+            "solver_runs": sum(int(r.get("entries") or 1) for ob, r in final),
+            "scenarios_reached": sum(int(r.get("witness_reached") or 0) for ob, r in final if ob.n_entries),
             "distinct_nontrivial": distinct,
             "rule": "one evaluation = one CBMC query (harness + real /repo units + bound tuple), deciding all its assertions "
                     "for every symbolic input within the bounds; non-trivial = all reachability witnesses (W:) came back reachable "
